@@ -82,7 +82,7 @@ def check_seq(case, stats):
         for p in pk:
             got = [s.get("type", "<missing>") for s in p["steps"]]
             for g in got:
-                if g not in VOCAB:
+                if not isinstance(g, str) or g not in VOCAB:
                     raise Violation(case, "pickle step type %r is outside the vocabulary (%s, keyword types %r)" % (
                         g, "outline" if rows else "plain scenario", seq))
             if got != want:
